@@ -95,6 +95,26 @@ def rand_vals_row(rng, m, pn, ties):
             if row[j] is not None:
                 row[j] = rng.choice([1.0, 2.5, 1000.0])
         return row
+    if not ties and rng.random() < 0.2:
+        # (round 6, C18-17) neighbouring doubles: distinct values a few ulps apart (relative 1e-16 .. 1e-9, far below single precision), or
+        # integers above 2^24 (up to 2^53) that differ by one; ascending with the column half of the time, so that an order taken from the
+        # positions instead of the values is wrong
+        import math
+        if rng.random() < 0.5:
+            base = rng.choice([0.25, 1.0, 3.0, 1000.0, 1e-6])
+            step = rng.choice([1, 1, 3, 1 << 10, 1 << 22])
+            vs = [base]
+            for _ in range(m - 1):
+                x = vs[-1]
+                for _ in range(1):
+                    x = x + step * math.ulp(x)
+                vs.append(x)
+        else:
+            start = rng.choice([1 << 24, (1 << 31) - 3, (1 << 40) + 1, (1 << 53) - 2 * m - 2])
+            vs = [float(start + j) for j in range(m)]
+        if rng.random() < 0.5:
+            rng.shuffle(vs)
+        return [None if rng.random() < pn else v for v in vs]
     row = []
     for _ in range(m):
         if rng.random() < pn:
